@@ -213,6 +213,62 @@ func TestScenarios(t *testing.T) {
 		sc.complete(w1, 0, 0)
 	})
 
+	// A drained worker waits; work queues up; removing the drain wakes the
+	// worker, which must pick the queued task by the ordinary policy. A
+	// second worker stays drained by another pattern and must get nothing.
+	scripted(t, tr, next(), "undrain-picks-queued", &fixedScript{}, func(sc *scenario) {
+		w := sc.w
+		w1 := sc.worker("w1", "h1", "", "p1", 0)
+		w2 := sc.worker("w2", "h2", "", "p1", 0)
+		sc.idle(w1)
+		w.Cancel(w1.call)
+		sc.settle()
+		w.Drain(true, "", "p1", 0, map[string]string{"host": "h1"})
+		sc.settle()
+		w.Drain(true, "", "p1", 0, map[string]string{"host": "h2"})
+		sc.settle()
+		sc.idle(w1) // drained: waits for an undrain
+		sc.idle(w2)
+		w.StartExecute("c1", find(w, "d1"), "", []string{"a", "t1"}, 0)
+		sc.settle()
+		w.StartExecute("c2", find(w, "d2"), "", []string{"a", "t2"}, -100)
+		sc.settle()
+		w.Quiescent(sc.parked())
+		w.Drain(false, "", "p1", 0, map[string]string{"host": "h1"})
+		sc.settle() // w1 wakes up and takes d2 (higher priority)
+		w.Quiescent(sc.parked())
+		w.Listing()
+		sc.complete(w1, 0, 0)
+		sc.complete(w1, 0, 0)
+		w.Drain(false, "", "p1", 0, map[string]string{"host": "h2"})
+		sc.settle()
+	})
+
+	// The same worker synchronizing twice at once: the second call is
+	// refused and must not disturb the first one, neither while it waits
+	// nor after it was handed a task.
+	scripted(t, tr, next(), "duplicate-synchronize", &fixedScript{}, func(sc *scenario) {
+		w := sc.w
+		w1 := sc.worker("w1", "h1", "", "p1", 0)
+		sc.idle(w1) // waits for work
+		w.StartSynchronize(w1, SyncArgs{State: "idle"})
+		sc.settle() // refused
+		w.StartExecute("c1", find(w, "d1"), "", []string{"a", "t1"}, 0)
+		// the task is handed to w1; before its call continues, a duplicate arrives
+		for len(sc.actorsIn("gate")) > 0 && sc.actorsIn("gate")[0].kind != "sync" {
+			w.Release(sc.actorsIn("gate")[0])
+		}
+		w.StartSynchronize(w1, SyncArgs{State: "completed", Digest: find(w, "d1"), Token: "dup", Duration: 1})
+		for _, a := range sc.actorsIn("gate") {
+			if a != w1.call {
+				w.Release(a)
+			}
+		}
+		sc.settle()
+		w.Quiescent(sc.parked())
+		sc.complete(w1, 0, 0)
+	})
+
 	// Retry on the largest size class with attached duplicate.
 	scripted(t, tr, next(), "retry-largest", &fixedScript{idx: 0, retry: true}, func(sc *scenario) {
 		w := sc.w
